@@ -10,6 +10,9 @@ def norm_cond(g):
         if isinstance(g, tuple) and len(g) == 2 and g[0] == "not":
             pol, g = not pol, g[1]
             continue
+        if isinstance(g, tuple) and len(g) == 3 and g[0] == "arm" and g[1] in ("None", ("Err", "_")):
+            # matching None / Err(_) is the negation of matching Some(_) / Ok(_) on the same scrutinee
+            return (("arm", ("Some", "_") if g[1] == "None" else ("Ok", "_"), g[2]), not pol)
         if isinstance(g, tuple) and len(g) == 2 and g[0] == "if":
             k = g[1]
             # peel symbolic negation / comparison polarity
